@@ -2962,11 +2962,11 @@ def oracle_c20(tables, seed, tier, deep):
     keys += ["zQ7~", "Z~"]          # very short keys (a "masked" key that keeps the last characters shows them whole)
     scen = [("digest", {}, None, False), ("none", {}, None, False), ("basic", {}, None, False), ("reject", {}, None, False), ("digest", {}, None, True),
             ("digest", {1: ("http", 500)}, None, True), ("digest", {0: ("http", 403)}, None, True), ("digest", {1: ("cut", 30)}, None, False), ("digest", {}, ("http", 500), True),
-            ("digest", {0: ("reset",)}, None, False), ("basic", {}, None, True)]
+            ("digest", {0: ("reset",)}, None, False), ("basic", {}, None, True), ("digest-cluster-only", {}, None, False)]
     try:
         for ki, priv in enumerate(keys):
             for si, (auth, faults, cf, echo) in enumerate(scen):
-                if not big and ki > 0 and si not in ((3, 6, 8) if len(priv) <= 4 else (0, 2, 4)):
+                if not big and ki > 0 and si not in ((3, 6, 8) if len(priv) <= 4 else (0, 2, 4, 11)):
                     continue
                 hs = ["h0.example.net:27017", "h1.example.net:27017"]
                 payloads = [fakeatlas.gz(atlas_payload(rng, i, 4)) for i in range(2)]
@@ -2995,6 +2995,8 @@ def oracle_c20(tables, seed, tier, deep):
                 if auth == "none":
                     if any(e["authed"] for e in r["log"]):
                         viol.append(dict(rep, site="key-leak:unsolicited-authorization", detail="an Authorization header was sent although the server never sent a challenge"))
+                if auth == "digest-cluster-only" and any(e["authed"] for e in r["log"] if e["path"].endswith("/logs/mongodb.gz")):
+                    viol.append(dict(rep, site="key-leak:unsolicited-authorization:later-request", detail="a log download carried an Authorization header although that endpoint never sent a challenge (a challenge answered earlier was re-used)"))
                 if auth == "basic" and any(e["authed"] for e in r["log"]):
                     viol.append(dict(rep, site="key-leak:basic", detail="credentials were sent in answer to a Basic challenge"))
         # invocations that end in usage / help / an argument error, with the key pair in the environment or on the command line
